@@ -23,6 +23,7 @@ def build(prop, tier, seed, meta, audit, res, wall, proof_ok, nviol, proof_notes
         + list(res.trusted),
         'theorems': audit['theorems'],
         'proof_modules': audit['modules'],
+        'leanchecker': audit.get('leanchecker', 'not run (thorough tier only)'),
         'proof_status': 'all obligations discharged' if proof_ok else proof_notes,
         'evaluations': res.evaluations,
         'distinct_nontrivial': len(res.nontrivial),
